@@ -25,6 +25,7 @@ import ModVerif.Proofs.ModfileFmtQuoteUnquote
 import ModVerif.Proofs.ModfileEolWork
 import ModVerif.Proofs.ModfileSrcDir
 import ModVerif.Proofs.ModfileSrcBytes
+import ModVerif.Proofs.ModfileFmtCom
 namespace ModVerif.Props.C02
 open ModVerif ModVerif.Modfile
 
@@ -598,8 +599,9 @@ open Proofs.ModfileFmtDir Proofs.ModfileEol in
     values — module path, go, toolchain, godebug, require WITH THE INDIRECT FLAG, exclude, replace, retract
     intervals, tool — are identical; without a version fixer, or with a fixer that is idempotent on its image
     and never returns the empty string, provided the file has no `retract` directive in that case.  Still
-    missing for the full statement: `fixRetract` with a fixer, fixers that return the empty string, and
-    `Module.Deprecated` / `Retract.Rationale` (see lean/PENDING.md). -/
+    missing for the full statement: `fixRetract` with a fixer and fixers that return the empty string (see
+    lean/PENDING.md); `Module.Deprecated` / `Retract.Rationale` are added by `format_preserves_directives_partial3`
+    below. -/
 theorem format_preserves_directives_partial2 (name x : Bytes) (fix : Option Fixer) (f : Modfile.File)
     (h : parseToFile name x fix true = .ok f) (hc : EolCount f.syn) (hwf : WellFormed f)
     (hfix : FixOK fix) (hne : FixNE fix) (hret : fix ≠ none → f.retract = []) :
@@ -754,6 +756,120 @@ example :
     let x := B "go 1.21 // g\nuse (\n\t\"./x y\" // first\n\t./z\n) // done\nreplace a.b/c v1.2 => \"../c\" // r\n"
     (match parseWork (B "go.work") x none with
      | .ok f => Proofs.ModfileFmtWork.workWellFormedB f
+     | .error _ => false) = true ∧ Proofs.ModfileSrc.NoMultiLineToken x := by
+  exact ⟨by decide +kernel, by decide +kernel⟩
+
+/-! ### Clause 3 with the comment-derived values `Module.Deprecated` and `Retract.Rationale`
+
+  Helper files `Proofs/ModfileFmtCom{Trim,Block,}.lean`.  `File.add` reads the two values from the comments of the
+  directive's line — or, for a block line without comments of its own, of the enclosing block
+  (`parseDirectiveComment`: `len(comments.Before) == 0 && len(comments.Suffix) == 0`) — as
+  `TrimSpace(TrimPrefix(c, "//"))` of every `Before` / `Suffix` comment that starts with `//` (blank-line
+  placeholders are skipped), joined by newlines; `parseDeprecation` applies `deprecatedRE` to that text.
+  The re-parse of the formatted text is the original tree up to positions with every comment text trimmed and the
+  end-of-line comment of a block NODE moved to its `)` (`format_parse_syntax_partial2`).  Hence: the texts agree
+  (`directive_comment_text_trimmed`), placeholders stay placeholders and list lengths are kept, so the line-vs-block
+  choice is the same, and the moved comment belongs to a block without lines (`block_comment_no_lines`, a
+  first-parse fact).  No counter-example exists under the hypotheses of `format_preserves_directives_partial2`: in
+  particular a blank-line placeholder as the only `Before` entry of a retract line inside a commented block gives
+  the empty rationale in BOTH parses, because the printer writes the blank line (example below; the real
+  `modfile.Parse` / `modfile.Format` agree). -/
+
+open Proofs.ModfileFmtLex in
+/-- for a `//` comment text `c` (no newline): `TrimSpace(TrimPrefix(TrimSpace(c), "//")) = TrimSpace(TrimPrefix(c, "//"))`
+    — `parseDirectiveComment` extracts the same text from the comment and from the trimmed comment the printer writes;
+    for every byte string after the slashes, ill-formed UTF-8 and non-ASCII white space included -/
+theorem directive_comment_text_trimmed {c : Bytes} (h : CommentOK c) :
+    GoStrings.trimSpace ((GoStrings.trimSpace c).drop 2) = GoStrings.trimSpace (c.drop 2) :=
+  Proofs.ModfileFmtCom.directiveText_trim h
+
+/-- `TrimSpace (x ++ e) = TrimSpace x` when `e` is a concatenation of well-formed encodings of white-space runes —
+    for every byte string `x` -/
+theorem trimSpace_append_spaceSeq (x e : Bytes) (he : Proofs.ModfileFmtTrim.SpaceSeq e) :
+    GoStrings.trimSpace (x ++ e) = GoStrings.trimSpace x :=
+  Proofs.ModfileFmtCom.trimSpace_append_spaceSeq x e he
+
+example : Proofs.ModfileFmtLex.CommentOK (B "//  Deprecated: x \t\r") := by
+  exact ⟨by decide +kernel, by decide +kernel⟩
+
+example : Proofs.ModfileFmtTrim.SpaceSeq [32, 0xC2, 0xA0, 0xE3, 0x80, 0x80] :=
+  .cons [32] _ 32 (by decide) (by decide) (.cons [0xC2, 0xA0] _ 0xA0 (by decide) (by decide)
+    (.cons [0xE3, 0x80, 0x80] [] 0x3000 (by decide) (by decide) .nil))
+
+/-- first-parse fact: in every parsed tree a block whose NODE carries an end-of-line comment has no lines (it is the
+    one-line block `x ( ) // c`; a block built by `parseLineBlock` starts on an earlier source line than its `)`, and
+    `assignComments` skips nodes that span several lines) — so the comments `parseDirectiveComment` reads from the
+    enclosing block of a line are all `Before` comments -/
+theorem block_comment_no_lines {name x : Bytes} {t : FileSyntax} (h : parse name x = .ok t) :
+    ∀ b, Expr.lineBlock b ∈ t.stmts → b.comments.suffix ≠ [] → b.lines = [] :=
+  fun b hb => Proofs.ModfileFmtCom.parse_blockSuf h (Expr.lineBlock b) hb
+
+example : (match parse (B "go.mod") (B "retract ( ) // c\n") with
+    | .ok t => t.stmts.any (fun s => match s with
+        | .lineBlock b => !b.comments.suffix.isEmpty && b.lines.isEmpty
+        | _ => false)
+    | .error _ => false) = true := by decide +kernel
+
+open Proofs.ModfileFmtCom in
+/-- one strict `File.add` step that reports no error changes the comment-derived values exactly by `comStep`:
+    `module` sets the deprecation text to `parseDeprecation block line.comments`, `retract` appends
+    `parseDirectiveComment block line.comments`, every other verb leaves both alone -/
+theorem add_step_comments (st : AddState) (block : Option Comments) (l : Line) (verb : Bytes) (args : List Bytes)
+    (fix : Option Fixer) (he : (File.add st block l verb args fix true).1.errsRev = []) :
+    comVals (File.add st block l verb args fix true).1.file = comStep block l verb (comVals st.file) :=
+  add_com st block l verb args fix he
+
+example : (File.add {} none { token := [B "retract", B "v1.0.0"], comments := { suffix := [{ token := B "// why " }] } }
+    (B "retract") [B "v1.0.0"] none true).1.errsRev = [] := by decide +kernel
+
+open Proofs.ModfileFmtDir Proofs.ModfileEol in
+/-- ★ `format_preserves_directives_partial3` (strict go.mod) — clause 3 INCLUDING the values derived from comments:
+    if the strict parser accepts `x` as a well-formed file `f` whose syntax tree satisfies the counting condition
+    `EolCount`, then it accepts `Format(f.Syntax)`, the directive values — module path, go, toolchain, godebug,
+    require with the indirect flag, exclude, replace, retract intervals, tool — are identical, AND so are
+    `Module.Deprecated` and the `Retract.Rationale` of every retraction (equality, no weaker relation is needed);
+    hypotheses exactly those of `format_preserves_directives_partial2`.  Still missing for the full statement:
+    `fixRetract` with a fixer and fixers that return the empty string (see lean/PENDING.md). -/
+theorem format_preserves_directives_partial3 (name x : Bytes) (fix : Option Fixer) (f : Modfile.File)
+    (h : parseToFile name x fix true = .ok f) (hc : EolCount f.syn) (hwf : WellFormed f)
+    (hfix : FixOK fix) (hne : FixNE fix) (hret : fix ≠ none → f.retract = []) :
+    ∃ f', parseToFile name (format f.syn) fix true = .ok f' ∧ values f' = values f ∧
+      f'.module.map (·.deprecated) = f.module.map (·.deprecated) ∧
+      f'.retract.map (·.rationale) = f.retract.map (·.rationale) := by
+  obtain ⟨f', h1, h2, h3⟩ := Proofs.ModfileFmtCom.format_preserves_directives_com name x fix f h hc hwf hfix hne hret
+  exact ⟨f', h1, h2, congrArg Proofs.ModfileFmtCom.ComVals.deprecated h3,
+    congrArg Proofs.ModfileFmtCom.ComVals.rationale h3⟩
+
+open Proofs.ModfileFmtDir Proofs.ModfileSrc in
+/-- ★ `format_preserves_directives_src3` — the same under the condition on the SOURCE text (no token spans two source
+    lines) instead of `EolCount` -/
+theorem format_preserves_directives_src3 (name x : Bytes) (fix : Option Fixer) (f : Modfile.File)
+    (h : parseToFile name x fix true = .ok f) (hN : NoMultiLineToken x) (hwf : WellFormed f)
+    (hfix : FixOK fix) (hne : FixNE fix) (hret : fix ≠ none → f.retract = []) :
+    ∃ f', parseToFile name (format f.syn) fix true = .ok f' ∧ values f' = values f ∧
+      f'.module.map (·.deprecated) = f.module.map (·.deprecated) ∧
+      f'.retract.map (·.rationale) = f.retract.map (·.rationale) :=
+  format_preserves_directives_partial3 name x fix f h
+    (Proofs.ModfileSrc.eolCount_syn_of_parseToFile name x fix f h hret hN) hwf hfix hne hret
+
+/-- non-vacuity (no fixer, CRLF line ends): a go.mod with a `// Deprecated:` comment above the module directive
+    (which also carries an end-of-line comment), a commented retract block with a line that has its own end-of-line
+    rationale (trailing blanks), a line with a whole-line rationale, a line whose only `Before` entry is a blank-line
+    PLACEHOLDER (own comment list not empty, so the block comment is NOT used: rationale empty), a line without
+    comments (block rationale), and a top-level retract — is accepted as a well-formed file satisfying `EolCount`
+    and `NoMultiLineToken`; the comment-derived values are as stated, and the strict parse of the formatted text
+    has the same ones (the conclusion of the theorem, evaluated).  The real `modfile.Parse` gives the same values
+    before and after `modfile.Format`. -/
+example :
+    let x := B "// Deprecated: use example.com/n instead. \r\nmodule example.com/m // mod\r\n\r\ngo 1.21\r\n\r\n// block rationale \t\r\nretract (\r\n\tv1.0.0 // line rationale\t \r\n\t// before\r\n\tv1.1.0\r\n\r\n\t[v1.2.0, v1.3.0]\r\n\tv1.4.0\r\n)\r\nretract v1.5.0 //top\r\n"
+    (match parseToFile (B "go.mod") x none true with
+     | .ok f => Proofs.ModfileFmtDir.wellFormedB f && Proofs.ModfileEol.eolCountB f.syn &&
+         decide (f.module.map (·.deprecated) = some (B "use example.com/n instead.\nmod")) &&
+         decide (f.retract.map (·.rationale) = [B "line rationale", B "before", [], B "block rationale", B "top"]) &&
+         (match parseToFile (B "go.mod") (format f.syn) none true with
+          | .ok f' => decide (f'.module.map (·.deprecated) = f.module.map (·.deprecated)) &&
+              decide (f'.retract.map (·.rationale) = f.retract.map (·.rationale))
+          | .error _ => false)
      | .error _ => false) = true ∧ Proofs.ModfileSrc.NoMultiLineToken x := by
   exact ⟨by decide +kernel, by decide +kernel⟩
 
